@@ -153,6 +153,8 @@ pub enum XPipeline {
     Tree,
     /// xml5ever::driver with RcDom as sink, then drop (totality only)
     RcDom,
+    /// xml5ever::driver (XmlParser + TendrilSink::process / finish) with the model sink
+    Driver,
 }
 
 #[derive(Clone, Debug, PartialEq, Eq)]
@@ -169,12 +171,15 @@ impl XmlCase {
             XPipeline::Tok { policy } => json!({"kind": "tok", "policy": policy.to_string()}),
             XPipeline::Tree => json!({"kind": "tree"}),
             XPipeline::RcDom => json!({"kind": "rcdom"}),
+            XPipeline::Driver => json!({"kind": "driver"}),
         };
         json!({"world": "xml-stream", "input": self.input, "opts": self.opts.to_json(), "pipeline": p, "schedule": self.schedule.to_json()})
     }
     pub fn from_json(v: &Value) -> XmlCase {
         let pipeline = if v["pipeline"]["kind"].as_str() == Some("tok") {
             XPipeline::Tok { policy: v["pipeline"]["policy"].as_str().and_then(|s| s.parse().ok()).unwrap_or(0) }
+        } else if v["pipeline"]["kind"].as_str() == Some("driver") {
+            XPipeline::Driver
         } else if v["pipeline"]["kind"].as_str() == Some("rcdom") {
             XPipeline::RcDom
         } else {
@@ -263,6 +268,23 @@ pub fn run_xml(case: &XmlCase, record_calls: bool) -> XRunObs {
             };
             let s = d.tok.sink;
             finish(s.recs.into_inner(), pauses, feed_results, qne, s.eof_count.get(), s.after_eof.get(), s.end_calls.get(), &probe, stats, None)
+        },
+        XPipeline::Driver => {
+            use tendril::stream::TendrilSink;
+            let policy = SinkPolicy { attach_ok: false, allow_shadow: true, record_calls, emulate_never_mirror: false };
+            let opts = xml5ever::driver::XmlParseOpts { tokenizer: case.opts.tok(), tree_builder: Default::default() };
+            let mut parser = xml5ever::driver::parse_document(ModelSink::new(policy, None, true), opts);
+            let (chunks, _keep) = crate::schedule::make_chunks(&case.input, &case.schedule);
+            let mut stats = RunStats::default();
+            for ch in chunks {
+                stats.chunks += 1;
+                stats.events += 1;
+                parser.process(ch);
+            }
+            let model = parser.finish();
+            let mut o = finish(vec![], vec![], vec![], None, 1, 0, 1, &probe, stats, Some(model));
+            o.is_driver = true;
+            o
         },
         XPipeline::RcDom => {
             use tendril::stream::TendrilSink;
